@@ -706,7 +706,7 @@ pub fn run(ctx: &Ctx) -> i32 {
     let mut seed_rng = Rng::derive(ctx.seed, 8, 0);
     let all = cases(&mut seed_rng, thorough);
     let n_cases = all.len();
-    let acc = crate::report::run_sharded(jobs, |shard| {
+    let acc = crate::report::run_sharded(ctx, |shard| {
         let mut acc = Acc::new();
         let mut rng = Rng::derive(ctx.seed, 8, 100 + shard as u64);
         for (k, c) in all.iter().enumerate() {
